@@ -326,7 +326,7 @@ def annotate_closures(sf, ed, spec, lo, hi, used):
         if key is not None:
             ed.ins(st[pc].end, ' ' + spec.sections[key] + ' ')
             used.add(key)
-        elif not is_block and st[pc + 1].text != '->':
+        elif not is_block and st[pc + 1].text != '->' and not any(t.text in OPEN for t in st[po + 1:pc]):
             body = [t.text for t in st[b0:b1 + 1]]
             ops = [k for k, tx in enumerate(body) if tx in ('==', '!=')]
             if len(ops) == 1 and all(SIMPLE_TOK.match(tx) for k, tx in enumerate(body) if k != ops[0]) and ops[0] not in (0, len(body) - 1):
